@@ -8,6 +8,7 @@ Real timeouts make this untestable by running it; under SimClock a stalled child
 just after the limit" is exact, and "never waits indefinitely" is the detectable event SimHang.
 """
 import os
+import sys
 
 from sim import kernel, world as world_mod, patches, host, casegen
 from models import settings as S
@@ -21,7 +22,7 @@ RULE_TEXT = ('runs = full product spawn site (all site x phase placements - the 
              'seeded random cases with several sites, several slow children and random timeout histories. '
              'Non-trivial = a child that outlives or nearly outlives its limit (behaviour != fast) was spawned; '
              'distinct = (site, phase, behaviour, timeout configuration, N).')
-REACH_PROBES = ['timeout_in_a_case_expected_to_fail', 'mode_act', 'mode_act_timeout_in_cleanup', 'timeout_set_by_a_suite_instruction_from_a_case_symbol', 'killed_at_deadline', 'finished_just_below', 'hang_as_specified', 'ignores_sigterm_killed',
+REACH_PROBES = ['big_constant_stdin', 'timeout_in_a_case_expected_to_fail', 'mode_act', 'mode_act_timeout_in_cleanup', 'timeout_set_by_a_suite_instruction_from_a_case_symbol', 'killed_at_deadline', 'finished_just_below', 'hang_as_specified', 'ignores_sigterm_killed',
                 'cleanup_after_timeout', 'timeout_in_assert_is_hard_error', 'timeout_zero', 'set_after_use_not_applied',
                 'none_lifts_limit', 'atc_killed', 'text_source_killed', 'matcher_killed', 'transformer_killed',
                 'stdin_program_killed', 'multi_slow']
@@ -49,6 +50,9 @@ SITES = [
     # the command line)
     ('run_args_with_braces', MULTI, ["run % {S} '{}' '{0}' x{y 100%s"], 'instr'),
     ('shell_with_braces', MULTI, ['$ {S} ${HOME} { a; } %d'], 'instr'),
+    # a stdin that is held in memory and larger than any pipe buffer (64 KiB): however it is fed to a child that does not
+    # read it, Exactly must come back
+    ('run_with_big_constant_stdin', MULTI, ['run % {S}', '  -stdin <<EOF', '{BIG}', 'EOF'], 'instr'),
     ('env_value', MULTI, ['env -of !act X{N} = -stdout-from % {S}'], 'text_source'),
     ('env_value_both_sets', ('setup',), ['env X{N} = -stdout-from % {S}'], 'text_source'),
     ('setup_stdin_value', ('setup',), ['stdin = -stdout-from % {S}'], 'lazy_stdin'),
@@ -144,7 +148,7 @@ def build(seed, tier, sites, cfg, n_value, g, sweep=False):
         n = counter[0]
         _, _, lines, kind = by_id[sid]
         tag = 'S%d' % n
-        lines = [l.replace('{S}', tag).replace('{N}', str(n)) for l in lines]
+        lines = [l.replace('{S}', tag).replace('{N}', str(n)) for l in lines]  # ({BIG} is expanded when rendering)
         rec = {'site': sid, 'phase': ph, 'tag': tag, 'behaviour': beh, 'kind': kind, 'n': n, 'first': k == 0}
         if kind == 'atc':
             act = lines
@@ -235,6 +239,13 @@ def limit_at_end_of_act(plan):
     return t
 
 
+BIG_TEXT = '\n'.join('line %05d of a text that does not fit into a pipe ............................' % k for k in range(1000))
+
+
+def has_big_stdin(plan):
+    return any(r['site'] == 'run_with_big_constant_stdin' for r in plan['sites'])
+
+
 def in_act_mode(plan):
     """--act: [before-assert] and [assert] are not executed; the identifier of an error is the first line of stderr, and a
     run that completes exits with the exit code of the action (0 here) and prints what the action printed (nothing)"""
@@ -272,7 +283,7 @@ def render(plan):
             elif e[0] == 'timeout':
                 lines.append('timeout = %s' % ('none' if e[1] is None else e[1]))
             else:
-                lines.extend(e[2])
+                lines.extend(BIG_TEXT if l == '{BIG}' else l for l in e[2])
         if ph == 'setup' and in_suite_mode(plan):
             lines.append('def string TSUITE = %d' % limit_at_end_of_act(plan))
     return '\n'.join(lines) + '\n'
@@ -393,7 +404,69 @@ def expected(plan):
 
 # ----------------------------------------------------------------------------- execute
 
+REAL_SECONDS_LIMIT = 12
+
+
 def execute(plan, scratch):
+    """Plans with a big constant stdin run in a forked child under a real-time watchdog: the simulator owns every wait
+    on a child process, but not a deadlock inside Exactly's own plumbing (a blocked pipe writer, a thread that is
+    joined and never ends).  Such a run does not return in real time although every simulated wait is bounded."""
+    if not has_big_stdin(plan):
+        return _execute_here(plan, scratch)
+    import pickle
+    import select
+    import signal as _signal
+    r, w_ = os.pipe()
+    sys.stdout.flush()
+    pid = os.fork()
+    if pid == 0:
+        code = 0
+        try:
+            os.close(r)
+            _signal.alarm(0)
+            out = pickle.dumps(_execute_here(plan, scratch))
+            with os.fdopen(w_, 'wb') as f:
+                f.write(out)
+        except BaseException:
+            code = 1
+        finally:
+            os._exit(code)
+    os.close(w_)
+    data = b''
+    hung = False
+    import time as _time
+    t_end = _time.time() + REAL_SECONDS_LIMIT
+    with os.fdopen(r, 'rb') as f:
+        while True:
+            left = t_end - _time.time()
+            if left <= 0:
+                hung = True
+                break
+            ready, _, _ = select.select([f], [], [], left)
+            if not ready:
+                hung = True
+                break
+            chunk = os.read(f.fileno(), 1 << 20)
+            if not chunk:
+                break
+            data += chunk
+    if hung:
+        os.kill(pid, _signal.SIGKILL)
+    os.waitpid(pid, 0)
+    if hung:
+        world_mod.force_rmtree(os.path.join(scratch, 'w'))
+        hist = {'text': render(plan), 'result': {'exit': None, 'stdout': '', 'stderr': '', 'hang': None, 'escape': None,
+                                                  'exception': None, 'real_time_hang': True, 'cwd_ok': True,
+                                                  'environ_ok': True},
+                'spawns': [], 'leftover': [], 'n_sandboxes': 0, 'orphans': [], 'digest': 'real-time-hang', 'sim_seconds': 0.0,
+                'probes': {'big_constant_stdin': 1}, 'armed': {}, 'fired': {}}
+        return hist
+    if not data:
+        raise kernel.HarnessError('C19: the forked run died without a result')
+    return pickle.loads(data)
+
+
+def _execute_here(plan, scratch):
     _behaviours(plan)  # durations and limits are always derived from the layout by the current model
     w = world_mod.World(os.path.join(scratch, 'w'))
     text = render(plan)
@@ -466,6 +539,8 @@ def execute(plan, scratch):
         pr['mode_act'] = 1
         if x['stalled'] and x['stalled_phase'] == 'cleanup':
             pr['mode_act_timeout_in_cleanup'] = 1
+    if has_big_stdin(plan):
+        pr['big_constant_stdin'] = 1
     if suite_mode:
         pr['timeout_set_by_a_suite_instruction_from_a_case_symbol'] = 1
     if res.get('hang') and x['hang']:
@@ -584,6 +659,8 @@ def sample_view(plan, hist):
 def normalize(plan):
     if not plan.get('sites') or 'layout' not in plan:
         return None
+    if has_big_stdin(plan):
+        return None  # (a run that hangs costs REAL_SECONDS_LIMIT of real time: such plans are reported as found)
     tags = {r['tag'] for r in plan['sites']}
     laid = {e[1] for ph in PHASES for e in plan['layout'].get(ph, []) if e[0] == 'site'}
     need = {r['tag'] for r in plan['sites'] if not r.get('is_atc')}
